@@ -23,7 +23,7 @@ theorem C08_call_presentation_independent (s₁ s₁' s₂ s₂' : PState) (mult
     (mr₁ mr₂ : MethodRec) (hmr₁ : s₁.registry.methods[mi₁]? = some mr₁) (hmr₂ : s₂.registry.methods[mi₂]? = some mr₂)
     (hdefs : mr₁.defs = mr₂.defs)
     (args : List (Kind × Nat)) (cs₁ cs₂ : List Nat)
-    (hst₁ : s₁'.staticId = 0) (hst₂ : s₂'.staticId = 0)
+    (hnm₁ : s₁.cfg.hash = .checked → ¬ s₁.cfg.vptrMap = true) (hnm₂ : s₂.cfg.hash = .checked → ¬ s₂.cfg.vptrMap = true)
     (hreg₁ : Forall₂ (fun (id ci : Nat) => id ∈ c₁.graph.ids ci) (Props.C01.virtIds args) cs₁)
     (hreg₂ : Forall₂ (fun (id ci : Nat) => id ∈ c₂.graph.ids ci) (Props.C01.virtIds args) cs₂)
     (hacc₁ : Forall₂ (fun cl v => cl ∈ c₁.graph.cov.get v) cs₁ m₁.vp)
@@ -35,9 +35,9 @@ theorem C08_call_presentation_independent (s₁ s₁' s₂ s₂' : PState) (mult
   have hlen₂ : m₂.vp.length = (Props.C01.virtIds args).length := by
     rw [← forall₂_length hacc₂, ← forall₂_length hreg₂]
   obtain ⟨mr₁', o₁, hm₁, hsel₁, hcall₁⟩ := Props.C01.C01_C02_call_after_update s₁ s₁' mults₁ rest₁ hup₁ hwf₁ hword₁ c₁ hc₁
-    key mi₁ m₁ hfind₁ args cs₁ hst₁ hreg₁ hacc₁ hpos
+    key mi₁ m₁ hfind₁ args cs₁ hnm₁ hreg₁ hacc₁ hpos
   obtain ⟨mr₂', o₂, hm₂, hsel₂, hcall₂⟩ := Props.C01.C01_C02_call_after_update s₂ s₂' mults₂ rest₂ hup₂ hwf₂ hword₂ c₂ hc₂
-    key mi₂ m₂ hfind₂ args cs₂ hst₂ hreg₂ hacc₂ (by omega)
+    key mi₂ m₂ hfind₂ args cs₂ hnm₂ hreg₂ hacc₂ (by omega)
   rw [hmr₁] at hm₁; cases hm₁
   rw [hmr₂] at hm₂; cases hm₂
   rw [← hproj, ← hdefs] at hsel₂
@@ -61,12 +61,12 @@ theorem C07_after_any_history (s s' : PState) (mults rest : List UInt64)
     (hword : ∀ r ∈ s.registry.classes, r.id < 2 ^ 64 - 1)
     (c : Compiled) (hc : s'.compiled = some c)
     (key mi : Nat) (m : MethodC) (hfind : (List.zipIdx c.methods).find? (fun e => e.1.key == key) = some (m, mi))
-    (args : List (Kind × Nat)) (cs : List Nat) (hstatic : s'.staticId = 0)
+    (args : List (Kind × Nat)) (cs : List Nat) (hnomap : s.cfg.hash = .checked → ¬ s.cfg.vptrMap = true)
     (hreg : Forall₂ (fun (id ci : Nat) => id ∈ c.graph.ids ci) (Props.C01.virtIds args) cs)
     (hacc : Forall₂ (fun cl v => cl ∈ c.graph.cov.get v) cs m.vp) (hpos : 0 < m.vp.length) :
     ∃ mr o, s.registry.methods[mi]? = some mr ∧
       Selects s.cfg.proj s.registry mr.defs ((Props.C01.virtIds args).map s.cfg.proj) o ∧
       s'.callWith key args .ref [] = Props.C01.expected m.vp.length args o :=
-  Props.C01.C01_C02_call_after_update s s' mults rest hup hwf hword c hc key mi m hfind args cs hstatic hreg hacc hpos
+  Props.C01.C01_C02_call_after_update s s' mults rest hup hwf hword c hc key mi m hfind args cs hnomap hreg hacc hpos
 
 end Yomm2.Props.C07
